@@ -148,7 +148,9 @@ def check_crossing(case):
 def _inverted_cases(tier):
     """Perfectly inverted classes of about a thousand scores with a few easy samples each: the two
     hard-sample fractions are then close but not equal."""
-    sizes = [(1000, 999, 1, 1), (999, 1000, 1, 1), (5000, 4999, 3, 3), (2000, 2000, 5, 5), (1200, 1199, 2, 1)]
+    sizes = [(1000, 999, 1, 1), (999, 1000, 1, 1), (5000, 4999, 3, 3), (2000, 2000, 5, 5), (1200, 1199, 2, 1),
+             # a dozen scored samples under billions of easy ones: both hard fractions below 1e-8, far from equal
+             (12, 10, 5 * 10**9, 10**9), (12, 10, 10**9, 5 * 10**9), (12, 10, 10**10, 10**10 + 5), (3, 7, 10**12, 3 * 10**11)]
     if tier != "quick":
         sizes += [(20000, 19999, 7, 7), (1000, 999, 2, 2), (999, 1000, 3, 3), (3000, 2998, 1, 1)]
     for n, m, ep, en in sizes:
